@@ -80,6 +80,11 @@ def handle : List String → String
         let q ← cb.externalPubkey HH s
         let par ← parityOf q
         pure s!"{fmtPt q} {par} {cb.parity}"
+  | "cb_accepts" :: b :: ts => optS do
+      let b ← parseBytes b
+      let (s, ts) ← pScript ts
+      let qx ← done (pBytes ts)
+      pure (if cbAccepts HH b s qx then "1" else REJECT)
   | "cb_external_obj" :: ts => optS do
       let (cb, ts) ← pCB ts
       let s ← done (pScript ts)
